@@ -92,6 +92,7 @@ def _mat(c):
         # the climate-network wrapper (unit time steps only): its similarity is the directed ES matrix and
         # it links the pairs with a positive score
         o["escn"], o["escn_adj"] = [], []
+        o["escn_eca"], o["escn_eca_first"], o["escn_eca_w0"], o["escn_es_after"] = {}, [], "", []
         if c["unit"]:
             from pyunicorn.core import GeoGrid
             from pyunicorn.climate import ClimateData, EventSeriesClimateNetwork
@@ -102,6 +103,19 @@ def _mat(c):
                                             symmetrization="directed", silence_level=3)
             o["escn"] = enc.arr(net.similarity_measure())
             o["escn_adj"] = enc.ints(net.adjacency)
+            # ... and the wrapper built for coincidence rates is asked, as ONE object, for every window type and
+            # symmetrisation in turn (the constructor has already computed one of them): the same matrices as the
+            # plain EventSeries object gives
+            if c["tm"] != enc.INF:
+                w0 = wts[(r // 3) % 3]
+                net2 = EventSeriesClimateNetwork(cd, method="ECA", taumax=tm, lag=c["lag"] / den,
+                                                 symmetrization="directed", window_type=w0, silence_level=3)
+                o["escn_eca_first"] = enc.arr(net2.similarity_measure())
+                o["escn_eca_w0"] = w0
+                o["escn_eca"] = {wt: {opt: enc.arr(net2.event_series_analysis(
+                    method="ECA", symmetrization=opt, window_type=wt))
+                    for opt in ("directed", "mean", "max", "min")} for wt in wts}
+                o["escn_es_after"] = enc.arr(net2.event_series_analysis(method="ES", symmetrization="directed"))
     except Exception as ex:
         o["exc"] = type(ex).__name__
     return o
